@@ -48,6 +48,9 @@ WORDS = ['word', 'Some text here.', 'A sentence, with punctuation: yes!', 'x', '
          'end.', 'The quick brown fox', 'param', 'return']
 GOOGLE += [f'Args:\n    a (str, one of "{_TAIL}): d', f"Returns:\n    '{_TAIL}: r", f'Args:\n    a ("x\\" {_TAIL}, optional): d']
 NUMPY += [f'Parameters\n----------\na : "{_TAIL}\n    d', f"Returns\n-------\n'{_TAIL}\n    r", f'Parameters\n----------\na : {{"x", "{_TAIL}}}\n    d']
+# a body followed by a return field, with something the renderer (not the parser) fails on
+EPY += ['Plain words first.\n\nMore x\xa0y here.\n\n@return: the value', 'Plain words first.\n\nBody M{\\frac} here.\n\n@return: r', 'Body text x\xa0y here.\n\n@return: the value', 'Body M{\\frac} here.\n\n@return: r', 'Section\n=======\n\nBody x\x0cy.\n\n@return: r\n@rtype: int']
+RST += ['Plain words first.\n\nMore x\xa0y here.\n\n:return: r', 'Body x\xa0y.\n\n:return: r', ':math:`\\frac`\n\n:returns: r', 'Section\n=======\n\nBody x\x0cy.\n\n:return: r\n:rtype: int']
 # types that fail inside the renderer (characters XML cannot carry, a no-break space inside a word), in type positions of every markup
 EPY += ['@type a: in\ufffft', '@rtype: L{x}\xa0or\xa0None', '@param a: d\n@type a: list of in\ufffet']
 RST += [':type a: in\ufffft', ':rtype: x\xa0y', ':param in\ufffft a: d']
